@@ -1,5 +1,6 @@
 import BaoModel.Ops4
 import BaoModel.Misc
+import BaoModel.FaultRead
 
 /-!
 # Driver operations, part 5: the glue around the core
@@ -108,27 +109,22 @@ def opDecrT (args : List String) (impl : String) : Verdict :=
         let ob0 := List.replicate tree.outboardSize (UInt8.ofNat 0xAA)
         let target0 := List.replicate d.length (UInt8.ofNat fill)
         let sink : Sink HB := { ob := { kind, root, tree, data := ob0 }, target := target0 }
-        let plan := (tree.responseChunks (Ranges.truncate ranges tree.size)).getD []
-        let sizes := plan.map fun c => match c with | .parent .. => 64 | .leaf _ size _ _ => size
-        let offK := (sizes.take k).foldl (· + ·) 0
-        let cut := stream.take offK
-        -- sync: std's `read_exact` retries `Interrupted`, and makes no read call at all for a zero-length item
-        let retried := fl == .sync && (fkind == "Interrupted" || sizes.getD k 1 == 0)
-        -- the k-th read call happens iff the plan has such an item and the k items before it pass
-        let reached := plan.length > k && (decodeAll hf fl root tree ranges stream).items.length ≥ k && !retried
-        -- effects: those of the run on the stream cut before item k (for a zero-length item - the single leaf of the
-        -- empty blob - cutting cannot make the read fail: nothing has happened before it)
-        let zeroK := reached && sizes.getD k 1 == 0
-        let run := decodeRanges hf fl (if reached then cut else stream) ranges sink
-        let run := if zeroK then { run with sink := sink } else run
-        let term := if reached then
-            (if fkind != "UnexpectedEof" then s!"Io({fkind}*)" else
-              match plan[k]? with
-              | some (.parent node ..) => s!"ParentNotFound({node})"
-              | some (.leaf start ..) => s!"LeafNotFound({start})"
-              | none => "?")
-          else match run.terminal with
-            | .done => "Done" | .panic => "panic" | .err e => decErrStr e
+        -- the code-shaped model with a read counter (`BaoModel/FaultRead.lean`; `Props/C01Read.lean` proves that a
+        -- reached fault stops the driver in front of the item, with the effects of the run on the stream cut there,
+        -- and that the C01 conclusions hold for every stream and fault). `Interrupted`: std's sync `read_exact`
+        -- retries it (no fault at all); the async code reports it like any other kind (evaluated as `Other`).
+        let retried := fl == .sync && fkind == "Interrupted"
+        let ek : IoKind := match fkind with
+          | "UnexpectedEof" => .unexpectedEof | "ConnectionReset" => .connectionReset | "WriteZero" => .writeZero
+          | _ => .other
+        let fault : Option ReadFault := if retried then none else some ⟨k, ⟨ek, true⟩⟩
+        let run := decodeRangesR hf fl stream ranges sink fault
+        let reached := !retried && ((readCalls hf fl stream ranges sink)[k]?).isSome
+        let term := match run.terminal with
+          | .done => "Done" | .panic => "panic"
+          | .err e =>
+            let t := decErrStr e
+            if fkind == "Interrupted" then t.replace "Io(Other*)" "Io(Interrupted*)" else t
         let trueOb := if isPostKind kind then Spec.postOutboard hf d bs else Spec.preOutboard hf d bs
         let obf := if kind == .empty then "-" else flagsOf 64 (UInt8.ofNat 0xAA) run.sink.ob.data trueOb false
         let tf := flagsOf 1024 (UInt8.ofNat fill) run.sink.target d true
